@@ -68,6 +68,23 @@ def module_path(hook):
 # ---------------------------------------------------------------------------------------------
 # generation
 # ---------------------------------------------------------------------------------------------
+DISABLED_HOOKS = {}
+
+
+class CompileError(Exception):
+    def __init__(self, msg, logp):
+        Exception.__init__(self, msg)
+        self.logp = logp
+
+
+def hooks_named_in_log(logp):
+    try:
+        txt = open(logp).read()
+    except OSError:
+        return set()
+    return set(re.findall(r'/verif/build/kani-gen/(\w+)\.harness\.rs', txt))
+
+
 def generate_all(playback=None):
     """(Re)generate kernel files for every hook from /repo's working tree.  Returns kernel metas."""
     import kernels
@@ -79,8 +96,18 @@ def generate_all(playback=None):
         if not os.path.exists(path):
             raise Undecided('hooked file missing: %s' % h['file'])
         txt = open(path).read()
-        if ('include!("/verif/kani/incrate/%s.rs")' % h['hook']) not in txt:
+        if ('include!("/verif/build/kani-gen/%s.harness.rs")' % h['hook']) not in txt:
             raise Undecided('hook %s not installed in %s' % (h['hook'], h['file']))
+        # per-run copy of the harness file (the hook includes the copy): a harness file that no longer compiles against
+        # the changed code can be replaced by a stub for this run without touching the committed harness
+        hsrc = os.path.join(VERIF, 'kani', 'incrate', h['hook'] + '.rs')
+        hdst = os.path.join(GEN, h['hook'] + '.harness.rs')
+        if h['hook'] in DISABLED_HOOKS:
+            htxt = '// harness file disabled for this run: %s\n' % DISABLED_HOOKS[h['hook']].replace('\n', ' ')
+        else:
+            htxt = open(hsrc).read()
+        if not os.path.exists(hdst) or open(hdst).read() != htxt:
+            open(hdst, 'w').write(htxt)
         specs = kernels.KERNELS.get(h['hook'], [])
         out = os.path.join(GEN, h['hook'] + '.kernels.rs')
         try:
@@ -248,7 +275,7 @@ def run_kani(crate, harnesses, jobs, timeout_s, harness_timeout=None, z3=False):
     results, compile_error = parse_kani(out)
     if compile_error:
         errs = [l for l in out.split('\n') if l.startswith('error')]
-        raise Undecided('cargo kani failed to compile %s: %s (log %s)' % (crate, '; '.join(errs[:4]), logp))
+        raise CompileError('cargo kani failed to compile %s: %s (log %s)' % (crate, '; '.join(errs[:4]), logp), logp)
     return results, wall, ' '.join(cmd), logp
 
 
@@ -310,7 +337,7 @@ def run_native(crate, harnesses, timeout_s=2400):
     open(logp, 'w').write(' '.join(cmd) + '\n' + out)
     if 'error: could not compile' in out or ('running ' not in out and 'error' in out):
         errs = [l for l in out.split('\n') if l.startswith('error')]
-        raise Undecided('native build of %s failed: %s (log %s)' % (crate, '; '.join(errs[:4]), logp))
+        raise CompileError('native build of %s failed: %s (log %s)' % (crate, '; '.join(errs[:4]), logp), logp)
     res = {}
     for mo in re.finditer(r'^test (\S+) \.\.\. (\w+)', out, re.M):
         res[mo.group(1).split('::')[-1]] = dict(status=mo.group(2), msg='')
@@ -356,31 +383,45 @@ def run_property(prop, tier, only, jobs):
         vunits = verus_units.discover(prop, tier, only)
         if not harnesses and not vunits:
             raise Undecided('no obligations registered for %s' % prop)
-        # ----- Kani
-        by_crate = {}
-        native_by_crate = {}
-        for h in harnesses:
-            if h['native']:
-                native_by_crate.setdefault(h['crate'], []).append(h)
-            else:
-                by_crate.setdefault((h['crate'], 'z3' in h['flags']), []).append(h)
-        kres = {}
+        # ----- Kani + native, retried without the harness files that no longer compile against the changed code
+        disabled_harnesses = []
         cmds = []
         kani_wall = 0.0
-        for (crate, z3), hs in by_crate.items():
-            timeout = 4 * 3600 if tier == 'thorough' else 3600
-            res, wall, cmd, logp = run_kani(crate, hs, jobs, timeout, harness_timeout=os.environ.get('VERIF_HARNESS_TIMEOUT', '30m' if tier == 'thorough' else '20m'), z3=z3)
-            kani_wall += wall
-            cmds.append(cmd if len(cmd) < 400 else cmd[:400] + ' ...')
-            for h in hs:
-                kres[h['name']] = res.get(h['full'], dict(status='NO_RESULT', failed_checks=[], covers=None, checks=None, time=None, raw=[]))
-        # ----- native bounded stand-ins
-        nres = {}
-        for crate, hs in native_by_crate.items():
-            res, wall, cmd, logp = run_native(crate, hs)
-            cmds.append(cmd if len(cmd) < 400 else cmd[:400] + ' ...')
-            for h in hs:
-                nres[h['name']] = res.get(h['name'], dict(status='NO_RESULT', msg=''))
+        for attempt in range(4):
+            by_crate = {}
+            native_by_crate = {}
+            for h in harnesses:
+                if h['native']:
+                    native_by_crate.setdefault(h['crate'], []).append(h)
+                else:
+                    by_crate.setdefault((h['crate'], 'z3' in h['flags']), []).append(h)
+            kres = {}
+            nres = {}
+            try:
+                for (crate, z3), hs in by_crate.items():
+                    timeout = 4 * 3600 if tier == 'thorough' else 3600
+                    res, wall, cmd, logp = run_kani(crate, hs, jobs, timeout, harness_timeout=os.environ.get('VERIF_HARNESS_TIMEOUT', '30m' if tier == 'thorough' else '20m'), z3=z3)
+                    kani_wall += wall
+                    cmds.append(cmd if len(cmd) < 400 else cmd[:400] + ' ...')
+                    for h in hs:
+                        kres[h['name']] = res.get(h['full'], dict(status='NO_RESULT', failed_checks=[], covers=None, checks=None, time=None, raw=[]))
+                # ----- native bounded stand-ins
+                for crate, hs in native_by_crate.items():
+                    res, wall, cmd, logp = run_native(crate, hs)
+                    cmds.append(cmd if len(cmd) < 400 else cmd[:400] + ' ...')
+                    for h in hs:
+                        nres[h['name']] = res.get(h['name'], dict(status='NO_RESULT', msg=''))
+                break
+            except CompileError as ce:
+                bad = hooks_named_in_log(ce.logp) - set(DISABLED_HOOKS)
+                if not bad or attempt == 3:
+                    raise Undecided(str(ce))
+                for hk in sorted(bad):
+                    DISABLED_HOOKS[hk] = 'it does not compile against the current /repo tree (%s)' % str(ce)[:300]
+                    log('NOTE property=%s harness file %s.rs does not compile against the current tree; its obligations are UNDECIDED, the others are re-run' % (prop, hk))
+                disabled_harnesses += [h for h in harnesses if h['hook'] in bad]
+                harnesses = [h for h in harnesses if h['hook'] not in bad]
+                generate_all()
         # ----- Verus
         vres = verus_units.run_units(vunits, tier)
     except Undecided as e:
@@ -394,6 +435,10 @@ def run_property(prop, tier, only, jobs):
     soft_undecided = []
     passed = []
     records = []
+    for h in disabled_harnesses:
+        undecided.append((h['name'], 'harness file %s.rs no longer compiles against the current tree (an item it names was removed or changed)' % h['hook']))
+        records.append(dict(obligation=h['name'], engine='not run', harness=h['full'], status='NOT_COMPILED', checks=None, covers=None, time_s=None,
+                            bounded=h['bounded'], failed_checks=[], verdict='undecided'))
     # native classification
     for h in harnesses:
         if not h['native']:
